@@ -225,4 +225,5 @@ package db
 //@   props C08 C15 C05
 //@   modifies * -M:S_db_KeyCol -M:S_sqlittle_columnIndex hdr_valid hdr_ps hdr_cookie jr_pos peer_state
 //@   requires l != nil
+//@   ensures [own] r1 == nil ==> fresh(r0)
 //@   ensures [open] r1 == nil ==> r0 != nil && !r0.dirty && r0.header != nil && legal_ps(r0.header.PageSize) && r0.header.ChangeCounter == cc_now && hdr_valid
